@@ -74,6 +74,8 @@ func runC04(c *Ctx, r *Report) {
 	checkLevelCacheWriters(c, r, "C04/level-cache-writers")
 	importFoundation(c, r, "C04", "driver-options")
 	importFoundation(c, r, "C04", "read-until")
+	r.Rule("C04/variant-merge", "(restated from C17/merge) a variant's default desired level -- the level every command is executed at -- is taken over whenever the variant defines it, independently of its other sections", 8)
+	importObligations(r, func(sub *Report) { checkMergeVariant(c, sub) }, "C17/merge", "C04/variant-merge")
 	r.Rule("C04/onx-send-command", "a platform hook's send-command step goes through (*network.Driver).SendCommand, the method that first acquires the default desired level", 2)
 	checkOnXSendCommand(c, r, "C04/onx-send-command")
 	r.Rule("C04/pattern-recompiled", "buildPrivGraph recompiles every level's pattern unconditionally (UpdatePrivileges after an edit takes effect)", 1)
